@@ -163,6 +163,8 @@ class SymF64(object):
         ot = lift(o)
         if ot is None:
             return NotImplemented
+        if isinstance(o, (int, float)) and not isinstance(o, bool) and float(o) > 0.0 and _math.isfinite(float(o)):
+            return SymF64DivConst(self.t, float(o))
         if cur().decide(z3.fpIsZero(ot)):
             raise ZeroDivisionError("float division by zero")
         return SymF64(z3.fpDiv(RNE, self.t, ot))
@@ -283,12 +285,123 @@ class SymF64(object):
         return self
 
 
+class SymF64DivConst(SymF64):
+    """``x / c`` for a concrete constant c > 0.  Behaves as the fp.div term; ``int()`` of it uses the exact step
+    function of ``int(fl(x / c))`` instead of bit-blasting the divider (see :func:`div_threshold`)."""
+    __slots__ = ("num", "c")
+
+    def __init__(self, num, c):
+        SymF64.__init__(self, z3.fpDiv(RNE, num, fval(c)))
+        self.num = num
+        self.c = c
+
+    def __int__(self):
+        ex = cur()
+        if ex.decide(z3.Or(z3.fpIsNaN(self.num), z3.fpIsInf(self.num))):
+            raise OverflowError("cannot convert float NaN/infinity to integer")
+        if ex.decide(z3.fpLT(self.num, fval(0.0))):
+            # negative numerators are outside the step-function cut: fall back to the bit-precise divider
+            return SymF64.__int__(self)
+        k = 0
+        while True:
+            lo_next = div_threshold(self.c, k + 1)
+            if lo_next is None:
+                return k
+            ex.note_div_cut(self.c, k + 1, lo_next)
+            if ex.decide(z3.fpLT(self.num, fval(lo_next))):
+                return k
+            k += 1
+            if k > 4096:
+                raise symx.UnwindingError("int(x / c): more than 4096 steps")
+
+
+def fl_div_exact(p, c):
+    """Correctly rounded (RNE) binary64 quotient p / c computed in exact rational arithmetic (independent of the FPU)."""
+    import fractions
+    q = fractions.Fraction(p) / fractions.Fraction(c)
+    if q == 0:
+        return 0.0
+    # binade of q
+    e = q.numerator.bit_length() - q.denominator.bit_length()
+    if fractions.Fraction(2) ** e > q:
+        e -= 1
+    if fractions.Fraction(2) ** (e + 1) <= q:
+        e += 1
+    e = max(e, -1022)
+    ulp = fractions.Fraction(2) ** (e - 52)
+    n = q / ulp
+    fl = n.numerator // n.denominator
+    rem = n - fl
+    if rem > fractions.Fraction(1, 2) or (rem == fractions.Fraction(1, 2) and fl % 2 == 1):
+        fl += 1
+    r = fl * ulp
+    if r > fractions.Fraction(1.7976931348623157e308):
+        return _math.inf
+    return float(r)     # exact: r is representable
+
+
+_DIV_THRESHOLDS = {}
+
+
+def div_threshold(c, k):
+    """Smallest double p >= 0 with int(fl(p / c)) >= k  (None if there is none below the largest double).
+
+    Derived with the exact rational model of IEEE division above by bisection over the doubles -- justified by the
+    monotonicity of correctly rounded division in its numerator (IEEE-754 fact, stated as an assumption) -- and
+    cross-checked at both sides of the threshold against the host FPU and against z3's own evaluation of fp.div.
+    """
+    key = (c, k)
+    if key in _DIV_THRESHOLDS:
+        return _DIV_THRESHOLDS[key]
+    import struct
+    if c * k > 1.7e308:
+        _DIV_THRESHOLDS[key] = None
+        return None
+
+    def idx(p):
+        return int(fl_div_exact(p, c))
+
+    def from_bits(b):
+        return struct.unpack(">d", struct.pack(">Q", b))[0]
+    lo_b, hi_b = 0, bits_of(min(c * (k + 1), 1.7976931348623157e308))
+    if idx(from_bits(hi_b)) < k:
+        hi_b = bits_of(1.7976931348623157e308)
+    if idx(from_bits(hi_b)) < k:
+        _DIV_THRESHOLDS[key] = None
+        return None
+    while lo_b < hi_b:            # bisection on the bit pattern (monotone in the value for non-negative doubles)
+        mid = (lo_b + hi_b) // 2
+        if idx(from_bits(mid)) >= k:
+            hi_b = mid
+        else:
+            lo_b = mid + 1
+    p = from_bits(lo_b)
+    below = from_bits(lo_b - 1) if lo_b > 0 else None
+    # three-way agreement at the step: exact model, host FPU, z3's fp.div
+    for x, want_ge in ((p, True), (below, False)):
+        if x is None:
+            continue
+        host = int(x / c) >= k
+        zq = z3.simplify(z3.fpRoundToIntegral(RTZ, z3.fpDiv(RNE, fval(x), fval(c))))
+        zv = z3.simplify(z3.fpGEQ(zq, fval(float(k))))
+        if host != want_ge or z3.is_true(zv) != want_ge:
+            raise AssertionError("division step mismatch at %r / %r (k=%d): exact %s host %s z3 %s"
+                                 % (x, c, k, want_ge, host, zv))
+    _DIV_THRESHOLDS[key] = p
+    return p
+
+
 class F64Explorer(symx.Explorer):
     """Explorer for F64 harnesses: feasibility pruning is optional (FP feasibility can be slow)."""
 
     def __init__(self, prune=False, feas_timeout_ms=3000, **kw):
         super().__init__(prune=prune, feas_timeout_ms=feas_timeout_ms, **kw)
         self.guards = []
+
+    def note_div_cut(self, c, k, threshold):
+        cuts = self._path.notes.setdefault("div_cuts", [])
+        if len(cuts) < 64:
+            cuts.append((c, k, threshold))
 
     def fmod_guard(self, guard):
         if not z3.is_true(guard):
